@@ -2,6 +2,7 @@ package rules
 
 import (
 	"fmt"
+	"go/token"
 	"go/types"
 	"sort"
 	"strings"
@@ -35,6 +36,10 @@ func runC01(c *Check, tier string) {
 	// a blob is published under its digest only whole (a truncated entry is later restored as if it were the output)
 	shareRule(c, "R01l", "the fs backend publishes an entry only by renaming a fully copied and closed temp file (same obligations as R07a)", 2, "R07a", func(sub *Check) { ruleR07a(sub) }, nil)
 	// incremental = clean rests on the gate, the store path and the restore path as a whole
+	// dependency digests reach the key through alias chains of any length
+	ruleAliasChainsFollowed(c, "R01p", "dag", "analysis")
+	ruleDeclaredOrderKept(c, "R01q")
+	shareRule(c, "R01r", "what is cached for a directory output is the whole directory: every entry adds a node to the stored tree (same obligation as R06h)", 1, "R06h", func(sub *Check) { ruleR06h(sub) }, nil)
 	useFamily(c, "R01m", famGate, 8)
 	useFamily(c, "R01n", famStore, 20)
 	useFamily(c, "R01o", famRestore, 20)
@@ -882,4 +887,68 @@ func reachesAny(r map[*ssa.Function]bool, set map[*ssa.Function]bool) bool {
 		}
 	}
 	return false
+}
+
+// R01q: declared outputs keep their declared order. `$(output :dep N)` in a dependant's command and the stored
+// target result both address outputs by position; Target.AllOutputs() hands out the Outputs slice itself (or an
+// append to it), so anything that sorts or overwrites through that slice reorders the target's own declaration
+// for the rest of the build — differently depending on whether the target executed or was restored.
+func ruleDeclaredOrderKept(c *Check, rule string) {
+	c.Rule(rule, "outside internal/loading nothing sorts in place, overwrites an element of, or re-slices-and-stores through a slice that aliases Target.Outputs (the field itself or the result of AllOutputs()); copies are fine", 1)
+	outputs := fk("model.Target", "Outputs")
+	allOut := c.P.Func("model", "Target", "AllOutputs")
+	n := 0
+	for _, fn := range c.P.Funcs {
+		if engine.InPackage(fn, "loading") || engine.InPackage(fn, "proto/gen") || fn == allOut {
+			continue
+		}
+		var src []ssa.Value
+		for _, b := range fn.Blocks {
+			for _, in := range b.Instrs {
+				switch x := in.(type) {
+				case *ssa.Call:
+					if allOut != nil && x.Call.StaticCallee() == allOut {
+						src = append(src, x)
+					}
+				case *ssa.UnOp:
+					if fa, ok := x.X.(*ssa.FieldAddr); ok && x.Op == token.MUL && engine.FieldKeyOf(fa.X.Type(), fa.Field) == outputs {
+						src = append(src, x)
+					}
+				}
+			}
+		}
+		if len(src) == 0 {
+			continue
+		}
+		n++
+		aliases := func(v ssa.Value) bool {
+			roots := sliceRoots(v)
+			for _, a := range src {
+				if roots[a] {
+					return true
+				}
+			}
+			return false
+		}
+		bad, pos := "", ""
+		for _, b := range fn.Blocks {
+			for _, in := range b.Instrs {
+				switch x := in.(type) {
+				case ssa.CallInstruction:
+					name := engine.CalleeName(x)
+					if (sortFuncs[name] || name == "slices.Reverse" || strings.HasPrefix(name, "slices.Sort") || strings.HasPrefix(name, "sort.S")) && len(x.Common().Args) > 0 && aliases(x.Common().Args[0]) {
+						bad, pos = name+" reorders the target's declared outputs in place", c.P.InstrPos(x)
+					}
+				case *ssa.Store:
+					if ia, ok := x.Addr.(*ssa.IndexAddr); ok && aliases(ia.X) {
+						bad, pos = "an element of the target's declared outputs is overwritten", c.P.InstrPos(x)
+					}
+				}
+			}
+		}
+		c.Require(bad == "", rule, "declared-order-kept/"+c.P.FuncName(fn), "the declared outputs are only read (or copied first)", bad+": positions used by $(output :dep N) and by the stored result now depend on whether this code ran, so a dependant built after a cache restore of the dependency sees a different output than after its execution", pos)
+	}
+	if n == 0 {
+		c.Unknown(rule, "declared-order-kept", "no function outside internal/loading reads Target.Outputs: the rule lost its subject", "-")
+	}
 }
